@@ -9,7 +9,7 @@ PROOF_MODULE = "Nlmodel.Proofs.C11"
 PROOF_FILES = ["Nlmodel/Proofs/C11.lean", "Nlmodel/Proofs/Lemmas/EmitSize.lean", "Nlmodel/Model/Compiler.lean", "Nlmodel/Spec/Eval.lean"]
 THEOREM_FILE = PROOF_FILES[0]
 LEVEL_TEXT = ("Lean theorems: (code generation) the emitted code of every expression, statement and block has its static size for every position, loop context and constant pool, hence the jump targets of `als` are the first instruction of the else-code and the first instruction after the expression, those of `zolang` are the loop head and the loop exit, `stop`/`volgende` jump to exit/head of the INNERMOST loop, function bodies are compiled without an inherited loop and `antwoord` outside a function is rejected; (definitional semantics) exactly one branch of an `als` runs and a non-boolean condition runs none, a loop ends when the condition is `nee`, `stop` completes the innermost loop with null, `volgende` restarts it; (machine, C11_no_residue - instance of the forward simulation of C01 stages 3/4) an `als`/`zolang` expression of the fragment (scalars, global and local variables, calls, `stop`/`volgende` where no operand is pending) started on ANY operand stack ends at the end of its code with exactly its value pushed and nothing else, `stop`/`volgende` arrive at the exit/head of the innermost loop with exactly `null` pushed on the stack the loop body started with, for any number of iterations; K3 is proved as a kernel-checked counterexample (C11_K3_witness). Tied to compiler.rs/vm.rs by real eval vs definitional evaluator on a complete enumeration of a template set (if-chains x loops x blocks x early exits, every placement of stop/volgende/antwoord, if/while as statements and as values), loops run 0, 1, 2 and 70 000 times, and a residue probe on the real VM (operand-stack height at every loop head and at Halt). No residue inside function bodies: C11_no_residue_in_function_bodies (instance of the stage-4 simulation): in any activation with any suspended callers an expression leaves exactly its value on the operand stack, loops left by stop/volgende/antwoord included.")
-LEVEL_NOTE = ("Trusted: Lean kernel; the machine-level 'no residue' theorem covers the scalar/function fragment of the C01 simulation; for heap values and builtins it is decided by the residue probe (hook) and by the model's step/stack correspondence. Known finding K3: stop/volgende evaluated under pending operands leave those operands on the stack; when such a loop is itself a later operand (array element, right operand, argument) the enclosing operator consumes the residue instead of the earlier operand, so the VALUE is wrong (`[5, zolang ja { 1 + als ja { stop } }]` gives [1, null] instead of [5, null]).")
+LEVEL_NOTE = ("Trusted: Lean kernel; the machine-level 'no residue' theorem covers the scalar/function fragment (C11_no_residue, C11_no_residue_in_function_bodies) AND, since stage 6 of the C01 simulation, expressions, loops and bodies that allocate, call allocating functions and collect (C11_no_residue_with_heap_values_and_calls); only nested function literals and K3 shapes are outside, decided there by the residue probe (hook) and the lockstep correspondence. Known finding K3: stop/volgende evaluated under pending operands leave those operands on the stack; when such a loop is itself a later operand (array element, right operand, argument) the enclosing operator consumes the residue instead of the earlier operand, so the VALUE is wrong (`[5, zolang ja { 1 + als ja { stop } }]` gives [1, null] instead of [5, null]).")
 TECHNIQUE = "Lean 4 proof (static sizes => jump targets; structural semantics of control flow; machine-level no-residue by forward simulation) + template enumeration with residue probe"
 RULE = ("complete enumeration of templates: if-chains (1-3 arms, with/without else) x loop bodies x exits (stop, volgende, antwoord, none) at "
         "every depth <= 3, as statement and as value, inside and outside functions; loops of 0, 1, 2, 5 and 70 000 iterations; random "
@@ -49,6 +49,21 @@ def templates():
         for k in range(d):
             inner = rng_wrap(k, inner)
         out.append("functie g() { %s 8 } functie f() { g() + 1 } [f(), g()]" % inner)
+    # WHERE THE EXIT STANDS: the only `stop` (or `volgende`/`antwoord`) of a loop written in a statement-level `als`, in the
+    # initialiser of a `stel`, on the right of an assignment, in a nested block, in an `anders`/`anders als` branch, as the value of
+    # the body — under loop conditions that are literally `ja`, constant-but-computed, or real — always FOLLOWED by code in the same
+    # block, at top level, in a function and in an outer loop: control must arrive at that code (a compiler that decides
+    # "this loop never ends, what follows is unreachable" from a syntactic search for `stop` is wrong when it overlooks a position)
+    holders = ["als i > 2 { %s };", "stel q = als i > 2 { %s } anders { 1 };", "acc = als i > 2 { %s } anders { acc };", "{ { als i > 2 { %s } } };",
+               "als i <= 2 { 1 } anders { %s };", "als i < 1 { 1 } anders als i > 2 { %s } anders { 2 };", "stel q = { als i > 2 { %s } };",
+               "als i > 2 { %s } anders { 0 }"]
+    lconds = ["ja", "1 == 1", "!nee", "i < 100"]
+    for h, lc, ex in itertools.product(holders, lconds, ["stop", "antwoord acc"]):
+        body = "i += 1; acc += i; " + (h % ex)
+        if ex == "stop":
+            out.append("stel i = 0; stel acc = 0; zolang %s { %s }; acc += 1000; [i, acc]" % (lc, body))
+            out.append("stel r = 0; stel k = 0; zolang k < 2 { k += 1; stel i = 0; stel acc = 0; zolang %s { %s }; r += acc + 1000; }; [k, r]" % (lc, body))
+        out.append("functie f() { stel i = 0; stel acc = 0; zolang %s { %s }; acc += 1000; antwoord [i, acc] } [f(), f()]" % (lc, body))
     # blocks and values
     out += ["{}", "{ 1 }", "{ {} }", "1; {}", "als ja { }", "als ja { {} }", "als ja { 1; {} }", "zolang nee { }", "stel i = 0; zolang i < 3 { i += 1 }",
             "stel i = 0; zolang i < 3 { i += 1; {} }", "stel i = 0; zolang i < 3 { i += 1; stel q = i; }", "functie f() { } f()", "functie f() { {} } f()",
@@ -98,6 +113,8 @@ def run(res, tier, rng, table_diffs=()):
         src, _ = gen.random_program(rng.fork(), size=rng.range(20, 70))
         cases.append(("random", src))
     cases += function_boundary()
+    from .. import gen2
+    cases += [("tail-shapes", p) for p in gen2.tail_shape_programs()]
 
     def residue(label, src, r):
         st = diff.stats(r["impl"])
